@@ -1,13 +1,69 @@
-// Package c14 is the harness for property C14 (runs the real kapacitor code, prints op lines).
 package c14
 
 import (
 	"fmt"
 	"os"
+	"strings"
+
+	"verifharness/kit"
 )
 
-// Run is replaced by the property's harness.
-func Run(args []string) int {
-	fmt.Fprintln(os.Stderr, "c14: harness not implemented yet")
-	return 3
+func emit(out *kit.Out, id string, lines []string) {
+	out.Line("case", id)
+	for _, l := range lines {
+		out.Line(l)
+	}
+	out.Line("end")
 }
+
+// Run: `vh-c14 -seed S -n N [-tier thorough]` generates; `vh-c14 -ops file` re-executes the cases of a file.
+func Run(args []string) int {
+	f := kit.ParseFlags(args)
+	out := kit.NewOut()
+	defer out.Flush()
+	if f.Ops != "" {
+		lines, err := kit.ReadLines(f.Ops)
+		if err != nil {
+			fmt.Fprintln(os.Stderr, err)
+			return 2
+		}
+		var cur []string
+		id := ""
+		for _, l := range lines {
+			t := strings.Fields(l)
+			switch {
+			case len(t) == 2 && t[0] == "case":
+				id, cur = t[1], nil
+			case len(t) == 1 && t[0] == "end":
+				emit(out, id, execCase(withOracle(cur)))
+			default:
+				cur = append(cur, l)
+			}
+		}
+		return 0
+	}
+	r := kit.NewRand(f.Seed)
+	for i := 0; i < f.N; i++ {
+		emit(out, fmt.Sprintf("g%d", i), execCase(withOracle(genCase(r.Fork(), i, f.Tier))))
+	}
+	return 0
+}
+
+// withOracle makes sure every case starts with the oracle lines of all pool scripts.
+func withOracle(ops []string) []string {
+	var rest []string
+	for _, l := range ops {
+		t := strings.Fields(l)
+		if len(t) > 0 && t[0] == "oracle" {
+			continue
+		}
+		rest = append(rest, l)
+	}
+	var out []string
+	for _, s := range scripts {
+		out = append(out, "oracle "+s.id)
+	}
+	return append(out, rest...)
+}
+
+func genCase(r *kit.Rand, i int, tier string) []string { return nil }
